@@ -137,7 +137,7 @@ func C19Case(r *Runner, base string, tape *sim.Tape) *Outcome {
 	c := GenCase(tape, false)
 	sched, stick := drawSchedule(tape)
 	sched2, stick2 := drawSchedule(tape)
-	chunks := drawIOChunks(tape, c.Tree, true)
+	chunks := drawIOChunks(tape, c.Tree, c.Inv.Stdin, true)
 	if chunks != nil {
 		out.stat("knob_io_buffer_sizes_chosen_by_plan", 1)
 	}
@@ -193,6 +193,10 @@ func C19Case(r *Runner, base string, tape *sim.Tape) *Outcome {
 			hashes = append(hashes, co.Res.SchedHash)
 			if co.Res.Deadlock {
 				out.V = &sim.Violation{Kind: "deadlock", Site: c.Shape, Detail: "the command stopped making progress" + describe()}
+				return out
+			}
+			if co.Res.Exit == -4 {
+				out.Infra = "the child's operation budget was exhausted (scenario too large for the chosen io buffer sizes)" + describe()
 				return out
 			}
 		}
